@@ -50,6 +50,13 @@ def tv_eval(node: ast.AST, atoms: Dict[str, Optional[bool]]) -> Optional[bool]:
     if isinstance(node, ast.UnaryOp) and isinstance(node.op, ast.Not):
         v = tv_eval(node.operand, atoms)
         return None if v is None else (not v)
+    if isinstance(node, ast.Compare) and len(node.ops) == 1:
+        # the complementary spelling of a configured atom: `a is None` <-> `a is not None`, == <-> !=, < <-> >=, > <-> <=
+        comp = {ast.Is: ast.IsNot, ast.IsNot: ast.Is, ast.Eq: ast.NotEq, ast.NotEq: ast.Eq, ast.Lt: ast.GtE, ast.GtE: ast.Lt, ast.Gt: ast.LtE, ast.LtE: ast.Gt, ast.In: ast.NotIn, ast.NotIn: ast.In}.get(type(node.ops[0]))
+        if comp is not None:
+            other = unparse(ast.Compare(left=node.left, ops=[comp()], comparators=node.comparators))
+            if other in atoms and atoms[other] is not None:
+                return not atoms[other]
     return None
 
 
